@@ -179,6 +179,9 @@ def gen_ins_case(seed, n, quick):
         # a posterior piled against the prior bounds: generated points get clipped onto / clamped near the faces of the unit hypercube, which is where a
         # density evaluated at the raw flow output differs from the density of the stored (clipped) point
         cfg.update(model="G2e", reparam=[None, "logit"][(n // 3) % 2], clip=True if (n // 3) % 2 == 0 else cfg["clip"], ftype=["maf", "realnvp"][(n // 6) % 2])
+    if n % 3 == 2:
+        # zero prior density in part of the unit hypercube: draws are rejected by the proposal's second mask, so samples and table rows must be filtered together
+        cfg.update(model="G2c")
     return cfg
 
 
